@@ -60,6 +60,7 @@ type Out struct {
 	Tag      int32
 	Kind     Kind
 	Label    string
+	ID       int64 // msg_id reserved at generation (Options.IDAtGeneration)
 	// LazyBody / Lazy materialise the message when it is emitted (it may refer to earlier traffic).
 	LazyBody func() []byte
 	Lazy     func() Event
@@ -102,6 +103,9 @@ type Options struct {
 	Reorder   bool // answer any outstanding request first
 	Container bool // group >=2 deliverable messages, any order (<=3 members)
 	Gzip      bool // gzip-pack a result
+	// IDAtGeneration: a message gets its msg_id when it is generated (queued), as real servers do, so that
+	// answering out of order or grouping later also means that an older msg_id arrives after a newer one
+	IDAtGeneration bool
 	MaxMenu   int
 }
 
@@ -440,6 +444,13 @@ func perms(k int) [][]int {
 // on the wire, and whether the connection is to be closed afterwards.
 func (s *Server) Emit(a Action) (frames [][]byte, closeConn bool) {
 	s.Emitted = append(s.Emitted, a.Label)
+	if s.Opt.IDAtGeneration {
+		for _, o := range s.Queue {
+			if o.ID == 0 && o.Lazy == nil && o.Label != "plain" {
+				o.ID = s.nextID(1)
+			}
+		}
+	}
 	take := func(idx []int) []*Out {
 		var outs []*Out
 		for _, i := range idx {
@@ -490,13 +501,22 @@ func (s *Server) Emit(a Action) (frames [][]byte, closeConn bool) {
 		if a.Kind == actGzip {
 			body = ResultBody(o.ReqMsgID, o.Tag, o.Kind, true)
 		}
+		if o.ID != 0 {
+			if o.Content {
+				s.Content = append(s.Content, o.ID)
+			}
+			return [][]byte{s.sealRaw(body, o.ID, s.nextSeq(o.Content))}, false
+		}
 		return [][]byte{s.seal(body, o.Content, 0)}, false
 	case actContainer:
 		outs := take(a.Idx)
 		w := &tlw.W{}
 		w.U32(idMsgContainer).U32(uint32(len(outs)))
 		for _, o := range outs {
-			id := s.nextID(1)
+			id := o.ID
+			if id == 0 {
+				id = s.nextID(1)
+			}
 			seq := s.nextSeq(o.Content)
 			if o.Content {
 				s.Content = append(s.Content, id)
